@@ -12,6 +12,36 @@ pub struct Scenario {
     pub net: NetCfg,
     /// virtual-time cap of the run (ms)
     pub cap_ms: u64,
+    /// datagrams that belong to no connection, sent from addresses of their own
+    #[serde(default)]
+    pub strays: Vec<Stray>,
+    /// endpoints answer packets for unknown connections with stateless resets (off by default, as in the library)
+    #[serde(default)]
+    pub stateless_reset: bool,
+}
+
+#[derive(Clone, Copy, Debug, Hash, PartialEq, Eq, Serialize, Deserialize)]
+pub enum StrayKind {
+    /// random bytes
+    Random,
+    /// short-header form with an unknown destination connection id
+    ShortUnknownDcid,
+    /// long header with an unsupported version
+    LongUnknownVersion,
+    /// a Version Negotiation packet
+    VersionNegotiation,
+    /// long header, QUIC v1 Initial-looking, garbage body (cannot be decrypted)
+    GarbageInitial,
+}
+
+#[derive(Clone, Copy, Debug, Hash, PartialEq, Eq, Serialize, Deserialize)]
+pub struct Stray {
+    pub at_us: u32,
+    /// to the server (true) or to client 0 (false)
+    pub to_server: bool,
+    pub kind: StrayKind,
+    pub len: u16,
+    pub seed: u64,
 }
 
 #[derive(Clone, Debug, Hash, PartialEq, Eq, Serialize, Deserialize)]
